@@ -359,6 +359,12 @@ def run(ctx):
             if c == "hang" and huge_repeat(text):
                 ctx.count("watchdog on a text that asks for more than 10^6 repetitions (not judged)")
                 return
+            if c == "hang" and re.search(r"repeat", text, re.I):
+                # a repeat count that is not a plain literal (a symbol, '^Rabc', an expression): give it the time
+                # its count asks for before calling it a hang
+                r = impl.assemble([(src, text)], timeout=180.0)
+                c = classify(r)
+                ctx.count("slow '.repeat' re-run with a 180 s watchdog: " + c)
             if c == "hang" and huge_shift(text):
                 ctx.count("watchdog on a text that shifts or multiplies by a literal of 7+ digits (not judged)")
                 return
